@@ -206,6 +206,12 @@ def classify(res, meta):
             kind = 'spec-lemma'
         if hit and all(c['kind'] == 'hint' for c in hit):
             kind = 'internal-proof-step'
+        # a failing loop invariant / proof step / safety obligation inside f voids the proof of f's postconditions:
+        # the failure is attributed to every property tagged on f's ensures clauses as well
+        if fn and not any(c['kind'] in ('ensures', 'requires') for c in hit):
+            for c in clauses:
+                if c.get('fn') == fn[0] and c['kind'] == 'ensures':
+                    tags.update(c.get('tags') or [])
         failures.append({'message': msg, 'function': where, 'line': pl, 'tags': sorted(tags), 'kind': kind,
                          'clauses': [{'kind': c['kind'], 'text': c['text'][:300], 'tags': c.get('tags')} for c in hit],
                          'rendered': d['rendered']})
